@@ -182,7 +182,7 @@ CHECKS["C07"] = {
 
 CHECKS["C03"] = {
     "level": "exploration",
-    "rule": ("rapid-generated handshakes over an in-memory message pipe that records every byte: XX with equal / one-bit-different (any of the 112 bits) / random / shorter passphrases, all compatible version ranges, "
+    "rule": ("rapid-generated handshakes over an in-memory message pipe that records every byte: XX with equal / one-bit-different (any of the 112 bits) / random / shorter / zero-padded (differing only by a trailing zero byte) passphrases, all compatible version ranges, "
              "KK with each side's stored remote key right or wrong, and KK impostors (either role presents the paired public key but computes its ECDH with an unrelated private key), drawn static keys, deterministic ephemerals, auth payloads 16 B .. 200 KB. Oracle: both DoHandshake succeed iff the secrets match; on a mismatch the responder "
              "returns an error having written zero bytes, the initiator returns an error, its AuthData is unchanged (nil, or the stale payload it held before), no onAuthData/onRemoteStatic callback fired, and the (high-entropy) payload appears nowhere on the wire. "
              "Non-trivial: the mismatch cases; distinct by configuration."),
@@ -259,6 +259,7 @@ CHECKS["C16"] = {
         {"pkg": "mboxprop", "run": "TestC16HandshakeFragmentation", "kind": "plain", "timeout": (900, 3600)},
         {"pkg": "mboxprop", "run": "TestC16PartialEnum", "kind": "plain", "shards": (2, 8), "timeout": (900, 3600)},
         {"pkg": "mboxprop", "run": "TestC16PartialRapid", "checks": (2000, 40000), "shards": (1, 8), "timeout": (900, 3600)},
+        {"pkg": "mboxprop", "run": "TestC16ConnWriteResume", "checks": (300, 6000), "shards": (1, 8), "timeout": (900, 3600)},
     ],
 }
 
